@@ -24,6 +24,7 @@ package genetics
 //@   ensures [strict] sortedLT(genes) && (forall i :: 0 <= i && i < len(genes) ==> genes[i].InnovationNum != g.InnovationNum) ==> sortedLT(result)
 //@   ensures [insert] exists k :: 0 <= k && k < len(result) && result[k] == g && (forall i :: 0 <= i && i < k ==> result[i] == old(genes[i])) && (forall i :: k < i && i < len(result) ==> result[i] == old(genes[i-1]))
 //@   ensures [keep] unchanged(genes)
+//@   ensures [shift] forall i :: 0 <= i && i < len(genes) ==> old(genes[i]) == result[i] || old(genes[i]) == result[i+1]
 //@   ensures [nonnil] nonNilGenes(result)
 //@   loop 1:
 //@     invariant -1 <= i && i <= index - 1 && index <= len(genes)
@@ -39,6 +40,7 @@ package genetics
 //@   ensures [strict] sortedNodesLT(nodes) && (forall i :: 0 <= i && i < len(nodes) ==> nodes[i].Id != n.Id) ==> sortedNodesLT(result)
 //@   ensures [insert] exists k :: 0 <= k && k < len(result) && result[k] == n && (forall i :: 0 <= i && i < k ==> result[i] == old(nodes[i])) && (forall i :: k < i && i < len(result) ==> result[i] == old(nodes[i-1]))
 //@   ensures [keep] unchanged(nodes)
+//@   ensures [shift] forall i :: 0 <= i && i < len(nodes) ==> old(nodes[i]) == result[i] || old(nodes[i]) == result[i+1]
 //@   ensures [nonnil] nonNilNodes(result)
 //@   loop 1:
 //@     invariant -1 <= i && i <= index - 1 && index <= len(nodes)
@@ -296,3 +298,45 @@ package genetics
 //@     invariant compatibility + bcmpC(arrOf(g.Genes), off(g.Genes), len(g.Genes), arrOf(og.Genes), off(og.Genes), len(og.Genes), heapOf(Gene.InnovationNum), opts.DisjointCoeff, opts.ExcessCoeff, list1Idx, list2Idx) == bcmpC(arrOf(g.Genes), off(g.Genes), len(g.Genes), arrOf(og.Genes), off(og.Genes), len(og.Genes), heapOf(Gene.InnovationNum), opts.DisjointCoeff, opts.ExcessCoeff, len(g.Genes) - 1, len(og.Genes) - 1)
 //@     invariant numMatching + bcmpM(arrOf(g.Genes), off(g.Genes), len(g.Genes), arrOf(og.Genes), off(og.Genes), len(og.Genes), heapOf(Gene.InnovationNum), list1Idx, list2Idx) == bcmpM(arrOf(g.Genes), off(g.Genes), len(g.Genes), arrOf(og.Genes), off(og.Genes), len(og.Genes), heapOf(Gene.InnovationNum), len(g.Genes) - 1, len(og.Genes) - 1)
 //@     invariant mutDiff + bcmpW(arrOf(g.Genes), off(g.Genes), len(g.Genes), arrOf(og.Genes), off(og.Genes), len(og.Genes), heapOf(Gene.InnovationNum), heapOf(Gene.MutationNum), list1Idx, list2Idx) == bcmpW(arrOf(g.Genes), off(g.Genes), len(g.Genes), arrOf(og.Genes), off(og.Genes), len(og.Genes), heapOf(Gene.InnovationNum), heapOf(Gene.MutationNum), len(g.Genes) - 1, len(og.Genes) - 1)
+
+// ---- C05: mutations change exactly what they document ---------------------------------------------
+// Assumed contracts of the interfaces a mutator talks to (their implementations are covered by C03 / C16).
+//@ func (InnovationsObserver).Innovations
+//@   trusted interface contract: returns the record of this generation; no effect on genomes
+//@   pure
+//@ func (InnovationsObserver).NextInnovationNumber
+//@   trusted interface contract: no effect on genomes
+//@   pure
+//@ func (InnovationsObserver).StoreInnovation
+//@   trusted interface contract: no effect on genomes
+//@   pure
+//@ func (network.NodeIdGenerator).NextNodeId
+//@   trusted interface contract: no effect on genomes
+//@   pure
+//@ func (*neat.Options).RandomNodeActivationType
+//@   reason chooses one of the configured activation types; reads options only
+//@   pure
+//@ pred genomeShape(g *Genome) = g != nil && nonNilGenes(g.Genes) && geneLinksWF(g.Genes) && sortedLE(g.Genes) && nonNilNodes(g.Nodes) && sortedNodesLE(g.Nodes) && len(g.Traits) >= 1 && g.nodeByIdMap != nil
+// the genetic content of every pre-existing gene and link, except the enabled flags
+//@ pred geneticsKept() = (forall x *Gene :: wasAllocated(x) ==> x.InnovationNum == old(x.InnovationNum) && x.MutationNum == old(x.MutationNum) && x.Link == old(x.Link)) && (forall l *network.Link :: wasAllocated(l) ==> l.ConnectionWeight == old(l.ConnectionWeight) && l.InNode == old(l.InNode) && l.OutNode == old(l.OutNode) && l.IsRecurrent == old(l.IsRecurrent) && l.Trait == old(l.Trait))
+//@ func (*Genome).mutateAddNode
+//@   props C05
+//@   requires genomeShape(g) && !isNilIface(innovations) && !isNilIface(nodeIdGenerator) && opts != nil
+//@   ensures [lens] result0 ==> len(g.Genes) == old(len(g.Genes)) + 2 && len(g.Nodes) == old(len(g.Nodes)) + 1
+//@   ensures [noop] !result0 ==> sameSlice(g.Genes, old(g.Genes)) && sameSlice(g.Nodes, old(g.Nodes)) && unchanged(g.Genes) && unchanged(g.Nodes)
+//@   ensures [order] sortedLE(g.Genes) && sortedNodesLE(g.Nodes)
+//@   ensures [kept] geneticsKept()
+//@   ensures_local [split] result0 ==> gene != nil && wasAllocated(gene) && old(gene.IsEnabled) && !gene.IsEnabled && (exists s :: 0 <= s && s < old(len(g.Genes)) && old(g.Genes[s]) == gene)
+//@   ensures_local [onlyOne] forall x *Gene :: wasAllocated(x) && x != gene ==> x.IsEnabled == old(x.IsEnabled)
+//@   ensures_local [gene1] result0 ==> fresh(gene1) && gene1.IsEnabled && gene1.Link.ConnectionWeight == 1.0 && gene1.Link.InNode == old(gene.Link.InNode) && gene1.Link.OutNode == node && gene1.Link.IsRecurrent == old(gene.Link.IsRecurrent)
+//@   ensures_local [gene2] result0 ==> fresh(gene2) && gene2.IsEnabled && gene2.Link.ConnectionWeight == old(gene.Link.ConnectionWeight) && gene2.Link.InNode == node && gene2.Link.OutNode == old(gene.Link.OutNode) && !gene2.Link.IsRecurrent
+//@   ensures_local [node] result0 ==> fresh(node) && node.NeuronType == network.HiddenNeuron
+//@   ensures_local [inserted1] result0 ==> (exists a :: 0 <= a && a < len(g.Genes) && g.Genes[a] == gene1)
+//@   ensures_local [inserted2] result0 ==> (exists b :: 0 <= b && b < len(g.Genes) && g.Genes[b] == gene2)
+//@   ensures_local [insertedNode] result0 ==> (exists c :: 0 <= c && c < len(g.Nodes) && g.Nodes[c] == node)
+//@   loop 1:
+//@     invariant -1 <= #idx && #idx < len(g.Genes) && !found && gene == nil
+//@   loop 2:
+//@     invariant 0 <= tryCount && (found ==> gene != nil && gene.IsEnabled && (exists s :: 0 <= s && s < len(g.Genes) && g.Genes[s] == gene))
+//@   loop 3:
+//@     invariant -1 <= #idx && !innovationFound && node == nil && gene1 == nil && gene2 == nil
